@@ -1129,6 +1129,8 @@ func runC09(r *mon.Run, replay string) {
 	r.Floor("reorgs_reverting_a_confirmed_revision", 5)
 	r.Floor("rpcs_succeeded_after_chain_event", 60)
 	r.Floor("renewals_with_capacity_above_filesize", 20)
+	r.Floor("multi_contract_rounds", 200)
+	r.Floor("rounds_with_two_paused_rpcs", 40)
 	start := time.Now()
 	jobs := c09Jobs(r)
 	total := 0
@@ -1157,6 +1159,18 @@ func runC09(r *mon.Run, replay string) {
 		defer wg.Done()
 		guardRun(r, "C09 G-concurrent", func() error { return c09Concurrent(r) })
 	}()
+	for w := 0; w < 3; w++ {
+		wg.Add(1)
+		go func(w int) {
+			defer wg.Done()
+			guardRun(r, fmt.Sprintf("C09 J-multi-contract-%d", w), func() error {
+				if err := c09MultiContract(r, w); err != nil && !errors.Is(err, errScenarioOver) {
+					return err
+				}
+				return nil
+			})
+		}(w)
+	}
 	wg.Wait()
 	r.Extra("wall_jobs_s", time.Since(start).Seconds())
 }
